@@ -193,6 +193,8 @@ def declare(reg, eng):
     reg.classes["CounterToken"]["fields"].setdefault("watchedpath", "str")
     NAME = "Path(event.src_path).name"
     reg.contract("CounterToken.on_deleted", params=["self", "event"], types={"self": "CounterToken", "event": "FsEvent"}, no_replay=True,
+                 # (the second test re-checks the first under the thread lock: other threads are not modelled, so it is constant here)
+                 unreachable_ok=["if name in self.cache:   [never false]"],
                  requires=["isint(self.available)"],
                  ensures=[("C09", f"implies(old(haskey(self.cache, {NAME})), not haskey(self.cache, {NAME}) "
                                   f"and self.available == old(self.available) + old(lookup(self.cache, {NAME}).count))"),
